@@ -149,6 +149,9 @@ fn linearizable(events: &[Event], desired_size: usize) -> bool {
             }
             let mut m = model.clone();
             let mut t2 = t;
+            // the model is the real sequential Cache and reads the virtual clock:
+            // those reads are the search's, not a spin of the code under test
+            simseam::clock::forgive_reads();
             let out = apply_model(&mut m, &mut t2, &events[i].op);
             if out == events[i].outcome {
                 done[i] = true;
